@@ -70,8 +70,10 @@ def model_check(ctx, consts):
                 sc = re.findall(r'/\\ sc = "([^"]+)"', res.raw)
                 wit = (sc[-1] if sc else "?") + " on text " + (t[-1] if t else "?")
             return (cfg, inv, wit)
-        if res.coverage_zero:
-            raise MachineryError("vacuous: actions never taken in %s: %s" % (cfg, res.coverage_zero[:6]))
+        # MapInvalid is reachable only when the guard map.nil is left out (exercised by the without_map_nil run)
+        zero = [z for z in res.coverage_zero if not (z.startswith("<MapInvalid ") and "without_map_nil" not in cfg)]
+        if zero:
+            raise MachineryError("vacuous: actions never taken in %s: %s" % (cfg, zero[:6]))
         return (cfg, None, res.distinct)
 
     with ThreadPoolExecutor(max_workers=4) as ex:
